@@ -30,7 +30,7 @@ ROOTS = ['root', 'conf', 'r']
 
 def gen_case(rng, i, tier):
     return {'attempt': ATTEMPTS[i % len(ATTEMPTS)] if i < 4 * len(ATTEMPTS) else rng.choice(ATTEMPTS), 'spelling': rng.choice(SPELLINGS), 'root': rng.choice(ROOTS),
-            'ext': rng.choice(['yaml', 'json', 'toml']), 'lib': rng.random() < 0.35, 'nested': rng.choice([None, 'dotdot', 'absolute', 'symlink', 'prefix', 'same', 'same-twice', 'same-dot']), 'salt': rng.randrange(1000)}
+            'ext': rng.choice(['yaml', 'json', 'toml']), 'lib': rng.random() < 0.35, 'skipP': rng.random() < 0.2, 'preload': rng.random() < 0.3, 'nested': rng.choice([None, 'dotdot', 'absolute', 'symlink', 'prefix', 'same', 'same-twice', 'same-dot']), 'salt': rng.randrange(1000)}
 
 
 def fixed_cases(tier):
@@ -171,7 +171,9 @@ def run_cli(ctx, res, case, mode, strace):
     T = ctx.casedir()
     R, inp = build(T, case, mode)
     cwd, rarg, ipath = invocation(T, case, R, inp)
-    argv = [ctx.bin('bkl'), '-f', 'json', '-r', rarg, ipath]
+    argv = [ctx.bin('bkl'), '-f', 'json', '-r', rarg] + (['-P'] if case.get('skipP') else []) + [ipath]
+    if case.get('skipP') and case.get('salt', 0) % 2:
+        argv = [ctx.bin('bkl'), '-P', '-f', 'json', ipath, '-r', rarg]
     trace = ''
     if strace:
         tf = os.path.join(T, 'strace.out')
@@ -191,30 +193,41 @@ def run_lib(ctx, res, case, mode):
     T = ctx.casedir()
     R, inp = build(T, case, mode)
     root = os.path.join(T, R)
-    ops = [{'op': 'set_root', 'path': T}, {'op': 'set_root', 'path': root}]
+    seq = [{'op': 'set_root', 'path': T}, {'op': 'set_root', 'path': root}]
     n = case['nested']
     if n == 'dotdot':
-        ops.append({'op': 'set_root', 'path': os.path.join(root, '..')})
+        seq.append({'op': 'set_root', 'path': os.path.join(root, '..')})
     elif n == 'absolute':
-        ops.append({'op': 'set_root', 'path': os.path.join(T, 'outside')})
+        seq.append({'op': 'set_root', 'path': os.path.join(T, 'outside')})
     elif n == 'symlink':
         if not os.path.lexists(os.path.join(root, 'esc')):
             os.symlink('../outside', os.path.join(root, 'esc'))
-        ops.append({'op': 'set_root', 'path': os.path.join(root, 'esc')})
+        seq.append({'op': 'set_root', 'path': os.path.join(root, 'esc')})
     elif n == 'prefix':
-        ops.append({'op': 'set_root', 'path': os.path.join(T, R + '-old')})
+        seq.append({'op': 'set_root', 'path': os.path.join(T, R + '-old')})
     elif n == 'same':
-        ops.append({'op': 'set_root', 'path': root})
+        seq.append({'op': 'set_root', 'path': root})
     elif n == 'same-twice':
-        ops += [{'op': 'set_root', 'path': root}, {'op': 'set_root', 'path': root}]
+        seq += [{'op': 'set_root', 'path': root}, {'op': 'set_root', 'path': root}]
     elif n == 'same-dot':
-        ops.append({'op': 'set_root', 'path': os.path.join(root, '.')})
-    ops.append({'op': 'merge_layers', 'path': os.path.join(root, inp)})
+        seq.append({'op': 'set_root', 'path': os.path.join(root, '.')})
+    seq.append({'op': 'merge_layers', 'path': os.path.join(root, inp)})
     # after an escape attempt also try to load a decoy directly
-    ops.append({'op': 'merge_layers', 'path': os.path.join(T, 'outside', 'decoy.' + case['ext']), 'parser': 0})
-    ops.append({'op': 'output', 'format': 'json'})
+    seq.append({'op': 'merge_layers', 'path': os.path.join(T, 'outside', 'decoy.' + case['ext'])})
+    seq.append({'op': 'output', 'format': 'json'})
+    ops = [dict(o, parser=0) for o in seq]
+    npre = 0
+    if case.get('preload'):
+        # a second parser reads files outside the future root *before* the root is narrowed; afterwards it must behave
+        # exactly like the parser that never saw them (nothing read earlier may stay reachable)
+        pre = []
+        for pth in (os.path.join(T, 'outside', 'decoy.' + case['ext']), os.path.join(T, R + '-old', 'decoy.' + case['ext']), os.path.join(T, 'outside', 'x.' + case['ext'])):
+            if os.path.exists(pth):
+                pre.append({'op': 'merge_layers', 'path': pth, 'parser': 1})
+        npre = len(pre)
+        ops += pre + [dict(o, parser=1) for o in seq]
     resp = ctx.call(ops, res)
-    return {'resp': resp, 'T': T}
+    return {'resp': resp, 'T': T, 'nseq': len(seq), 'npre': npre}
 
 
 def check_case(ctx, case):
@@ -231,14 +244,22 @@ def check_case(ctx, case):
                 dirs.append(o['T'])
                 if o['resp'] is None:
                     return res.violate('crash', 'worker died', case=case)
-                rs = o['resp']['results']
-                for r in rs:
+                allrs = o['resp']['results']
+                rs = allrs[:o['nseq']]
+                for r in allrs:
                     if r.get('panic'):
                         return res.violate('crash', 'panic: ' + r['panic'][:300], case=case)
                 sig = [(r['err'] is None) for r in rs] + [out_bytes(rs[-1]) if rs[-1]['err'] is None else None]
                 runs[mode] = sig
                 if rs[-1]['err'] is None and b'DECOY' in (out_bytes(rs[-1]) or b''):
                     return res.violate('leak', 'content of a file outside the root appears in the output', case=case, out=out_bytes(rs[-1]).decode())
+                if o['npre']:
+                    rs2 = allrs[o['nseq'] + o['npre']:]
+                    # statuses of the calls after the root was narrowed, except the final output (it legitimately holds what was merged earlier)
+                    if [(r['err'] is None) for r in rs2[:-1]] != [(r['err'] is None) for r in rs[:-1]]:
+                        return res.violate('stale-access', 'a file read before the root was narrowed is still reachable afterwards', case=case,
+                                           with_preload=[r['err'] for r in rs2[:-1]], without=[r['err'] for r in rs[:-1]])
+                    res.ev('preload_controls')
             if runs['v1'] != runs['v2'] or runs['v1'] != runs['absent']:
                 return res.violate('interference', 'result depends on files outside the root (decoys rewritten / removed)', case=case,
                                    runs={k: [str(x) for x in v] for k, v in runs.items()})
